@@ -58,6 +58,24 @@ def range_number_from_counter(e, label, counter):
     return number
 
 
+def range_numbers_at_note(ranges, label, counter):
+    """
+    Number the slurs (or tuplets) that start (or stop) at one note. Ranges that
+    are not open yet get their number before the numbers of the open ones are
+    released, and the result is ordered by number: this is the order in which
+    load_musicxml returns the slurs of a note, so that exporting a loaded file
+    numbers and orders them as the file does.
+    """
+    numbers = {}
+    for r in ranges:
+        if (label, r) not in counter:
+            numbers[id(r)] = range_number_from_counter(r, label, counter)
+    for r in ranges:
+        if id(r) not in numbers:
+            numbers[id(r)] = range_number_from_counter(r, label, counter)
+    return sorted(((numbers[id(r)], r) for r in ranges), key=itemgetter(0))
+
+
 def filter_string(s):
     """
     Make (unicode) string fit for passing it to lxml, which means (at least)
@@ -196,28 +214,20 @@ def make_note_el(note, dur, voice, counter, n_of_staves):
         if note.staff != 1 or n_of_staves > 1:
             etree.SubElement(note_e, "staff").text = "{}".format(note.staff)
 
-    for slur in note.slur_stops:
-        number = range_number_from_counter(slur, "slur", counter)
-
+    for number, slur in range_numbers_at_note(note.slur_stops, "slur", counter):
         notations.append(etree.Element("slur", number="{}".format(number), type="stop"))
 
-    for slur in note.slur_starts:
-        number = range_number_from_counter(slur, "slur", counter)
-
+    for number, slur in range_numbers_at_note(note.slur_starts, "slur", counter):
         notations.append(
             etree.Element("slur", number="{}".format(number), type="start")
         )
 
-    for tuplet in note.tuplet_stops:
-        number = range_number_from_counter(tuplet, "tuplet", counter)
-
+    for number, tuplet in range_numbers_at_note(note.tuplet_stops, "tuplet", counter):
         notations.append(
             etree.Element("tuplet", number="{}".format(number), type="stop")
         )
 
-    for tuplet in note.tuplet_starts:
-        number = range_number_from_counter(tuplet, "tuplet", counter)
-
+    for number, tuplet in range_numbers_at_note(note.tuplet_starts, "tuplet", counter):
         tuplet_e = etree.Element("tuplet", number="{}".format(number), type="start")
         if (
             tuplet.actual_notes is not None
